@@ -180,4 +180,29 @@ PROPS = {
         "level_text": "Theorems (Props/C04.lean): for any list of random ranks (ties allowed) the rank filter keeps at most K rows of a unit; τ = 1 + σ·q ≥ 1 for σ, q ≥ 0; a key with distinct-unit count 1 is not released when the noise draw is ≤ 0. The real limit_col_contributions and tau-thresholding relations are executed on SQLite (seeded and constant draws); τ and σ in the rewritten query are compared with an independent computation from (ε·share, δ·share, K).",
         "level_note": "Trusted: Lean kernel; SQLite; harness. Named runtime behaviour the model cannot exhibit: per-reference re-evaluation of RANDOM() by an SQL engine.",
     },
+    "C07": {
+        "lean_modules": ["QrlewModel.Props.C07"],
+        "streams": [
+            {"name": "sizes", "n_quick": 6000, "n_thorough": 200000},
+            {"name": "sqlx", "n_quick": 30000, "n_thorough": 1500000, "compare": False, "min_per_proc": 500},
+        ],
+        "rule": "sizes: Map (offset/limit), Join (4 kinds x unique flags) and Set (3 operators) nodes built through the builders over tables of size 0..1000: declared size vs the Lean size model. " + "sqlx: generated queries of the supported fragment over t1(a PK, b, c, d, e nullable), t2(a, f, g), t3(k unique, h, w unique float): projections with scalar expressions (arithmetic, abs, CASE, greatest, coalesce, upper), WHERE (comparisons, IN, AND/OR, text equality), DISTINCT, total ORDER BY with LIMIT/OFFSET, aggregations (sum/count/avg/min/max/count distinct, mixed aggregate-scalar items) grouped by column / expression, HAVING, INNER/LEFT/RIGHT/FULL joins ON, USING, NATURAL, derived tables, CTEs, UNION/UNION ALL/INTERSECT/EXCEPT, functions of unique columns; x conforming database instances (empty tables, boundary values, NULLs, duplicate and unmatched join keys, unique keys distinct); the relation rendered by the library is executed on SQLite next to the original text; non-trivial = non-empty result",
+        "trusted_base": COMMON_TRUST + ["SQLite 3.40 + harness shims as executor of the rendered relation"],
+        "assumptions": ["SQLite semantics (type affinity, integer division, NULL ordering) only where the generated fragment exercises them", "column types are checked by execution only; the Lean part covers row counts"],
+        "technique": "Lean 4 proof (size lemmas for filter/offset/limit, set operations, inner joins with product and unique-key bounds; kernel-checked counterexample for outer joins) + correspondence of declared sizes with the model + execution oracle (cells in declared types, row counts in declared sizes)",
+        "level_text": "Theorems (Props/C07.lean) for bags of any size: |LIMIT l OFFSET o of a filtered bag| ≤ min(l, max − o); UNION/INTERSECT/EXCEPT bounds; inner join ≤ |L|·|R| and ≤ max(|L|,|R|) when a join key is unique; left outer join ≤ |L|·|R| + |L| with a counterexample to the bound the code declares. Declared sizes of builder-made nodes equal the model's; generated queries are executed on SQLite and every cell / row count is checked against the declared schema / size.",
+        "level_note": "Trusted: Lean kernel; SQLite and shims. Modelled, not verified: column type propagation through relations (execution oracle; the expression-level part is C06/C10).",
+    },
+    "C14": {
+        "lean_modules": ["QrlewModel.Props.C14"],
+        "streams": [
+            {"name": "sqlx", "n_quick": 30000, "n_thorough": 1500000, "compare": False, "min_per_proc": 500},
+        ],
+        "rule": "sqlx: generated queries of the supported fragment over t1(a PK, b, c, d, e nullable), t2(a, f, g), t3(k unique, h, w unique float): projections with scalar expressions (arithmetic, abs, CASE, greatest, coalesce, upper), WHERE (comparisons, IN, AND/OR, text equality), DISTINCT, total ORDER BY with LIMIT/OFFSET, aggregations (sum/count/avg/min/max/count distinct, mixed aggregate-scalar items) grouped by column / expression, HAVING, INNER/LEFT/RIGHT/FULL joins ON, USING, NATURAL, derived tables, CTEs, UNION/UNION ALL/INTERSECT/EXCEPT, functions of unique columns; x conforming database instances (empty tables, boundary values, NULLs, duplicate and unmatched join keys, unique keys distinct); the relation rendered by the library is executed on SQLite next to the original text; non-trivial = non-empty result",
+        "trusted_base": COMMON_TRUST + ["SQLite 3.40 + harness shims as executor"],
+        "assumptions": ["base tables honour their declared unique / primary-key constraints (generated that way)"],
+        "technique": "Lean 4 proof (uniqueness is preserved by functions injective on the values, by filters, and by inner joins whose other side has a unique key; kernel-checked counterexample for lossy casts) + execution oracle on columns declared unique",
+        "level_text": "Theorems (Props/C14.lean) for bags of any size: a column stays duplicate-free under projection through any function injective on its values, under filters, and on the left side of an inner join whose right join key is unique; ⌊1.2⌋ = ⌊1.4⌋ shows a lossy cast is not such a function. Generated queries (incl. functions of unique columns, group-by keys, joins) are executed on SQLite and every column the relation declares unique is checked for duplicates.",
+        "level_note": "Trusted: Lean kernel; SQLite and shims. Modelled, not verified: which functions the code lists as bijections is observed through execution (no translator for that list).",
+    },
 }
